@@ -146,6 +146,12 @@ def run_case(case, ctx):
                                ("sub/e_none.py", "x = 5\n"), ("sub/f_lic_only.py", "# SPDX-License-Identifier: 0BSD\nx = 6\n"),
                                ("sub/g_cop_only.c", "// SPDX-FileCopyrightText: 2021 Other Partial\nint g;\n"), ("z_none.md", "last\n")):
                 (mix / name).write_text(text)
+        if k % 5 in (1, 3):
+            # a licence text that is a link to the file the project keeps in its root (LICENSES/X.txt -> ../COPYING)
+            (root / "LICENSES").mkdir(exist_ok=True)
+            (root / "COPYING.ARTISTIC").write_text("artistic text\n")
+            os.symlink("../COPYING.ARTISTIC", root / "LICENSES" / "Artistic-2.0.txt")
+            (root / "uses_linked_text.py").write_text("# SPDX-FileCopyrightText: 2018 L\n# SPDX-License-Identifier: Artistic-2.0\n")
         linked = k % 5 == 2
         if linked:
             # one licence text reachable under two names through a link inside LICENSES/: whatever the tool makes of that
